@@ -12,6 +12,7 @@ require (
 	github.com/ipfs/go-cid v0.6.2
 	github.com/multiformats/go-multibase v0.3.0
 	github.com/multiformats/go-multihash v0.2.3
+	github.com/quic-go/quic-go v0.61.0
 	go.uber.org/zap v1.28.0
 	google.golang.org/protobuf v1.36.11
 	storj.io/drpc v1.0.0
